@@ -222,7 +222,11 @@ class ScriptedSim(mosaik_api_v3.Simulator):
                     elif k >= L:
                         emit = False
                 if emit:
-                    out.setdefault(eid, {})[attr] = f"{self.sid}/{eid}/{attr}@{time}#{k}"
+                    val = f"{self.sid}/{eid}/{attr}@{time}#{k}"
+                    if kind == "persistent" and beh.get("p_none") and \
+                            H(self.seed, self.sid, eid, attr, time, k, "none") % 1000 < beh["p_none"] * 1000:
+                        val = None          # a legal value of a persistent attribute
+                    out.setdefault(eid, {})[attr] = val
         otime = None
         if beh.get("p_future", 0.0) and rng.random() < beh["p_future"]:
             otime = time + rng.randrange(1 + beh.get("horizon", 2))
